@@ -202,16 +202,17 @@ func c09ReaderCases(c *ev.Ctx) []rcase {
 }
 
 func checkC09(c *ev.Ctx) {
-	c.SetRule("fault = I/O failure at the boundary. Writers (xz multi-block and multi-chunk, .lzma with plain and io.ByteWriter sinks in three termination modes, LZMA2 with flushes): a dry run records the K sink Write calls of the history NewWriter, Write*, [Flush], Close, Close; then every k in [0,K) x {fail once, fail forever} x {no bytes, partial write} is replayed (byte-writer sinks: every k < 3000, then every 61st). Readers (xz, xz SingleStream, .lzma, LZMA2; plain and io.ByteReader sources): every source offset k in [0,len] x {once, forever}. distinct non-trivial = distinct (case, fault position, fault mode) executions in which the fault actually fired")
+	c.SetRule("fault = I/O failure at the boundary. Writers (xz multi-block and multi-chunk, .lzma with plain and io.ByteWriter sinks in three termination modes, LZMA2 with flushes): a dry run records the K sink Write calls of the history NewWriter, Write*, [Flush], Close, Close; then every k in [0,K) x {fail once, fail forever} x {no bytes, partial write} is replayed (byte-writer sinks: every k < 3000, then every 61st). Readers (xz, xz SingleStream, .lzma, LZMA2; plain and io.ByteReader sources): every source offset k in [0,len] x {once, forever} x {error in its own Read result, error together with the last data bytes}. distinct non-trivial = distinct (case, fault position, fault mode) executions in which the fault actually fired")
 	c.Assume("the injected error is mon.ErrInjected; reader oracle uses errors.Is; the driver stops at the first error like io.ReadAll")
 	wcases := c09WriterCases(c)
 	rcases := c09ReaderCases(c)
 	type job struct {
-		w       *wcase
-		r       *rcase
-		k       int
-		forever bool
-		partial bool
+		w        *wcase
+		r        *rcase
+		k        int
+		forever  bool
+		partial  bool
+		withData bool
 	}
 	var jobs []job
 	for i := range wcases {
@@ -241,6 +242,13 @@ func checkC09(c *ev.Ctx) {
 		r := &rcases[i]
 		for k := 0; k <= len(r.B); k++ {
 			jobs = append(jobs, job{r: r, k: k, forever: false}, job{r: r, k: k, forever: true})
+			if k > 0 && k < len(r.B) {
+				// the error arrives together with the last bytes before the fault offset and
+				// persists.  (A transient error delivered together with valid data is dropped
+				// by io.ReadFull itself when those bytes complete the request, and the stream
+				// then decodes correctly: not a masked failure, so it is not generated.)
+				jobs = append(jobs, job{r: r, k: k, forever: true, withData: true})
+			}
 		}
 	}
 	c.MinEvals(int64(len(jobs) / 2))
@@ -280,12 +288,12 @@ func checkC09(c *ev.Ctx) {
 			return
 		}
 		r := j.r
-		id := fmt.Sprintf("%s@%d:%v", r.ID, j.k, j.forever)
+		id := fmt.Sprintf("%s@%d:%v:%v", r.ID, j.k, j.forever, j.withData)
 		if !want(c, id) {
 			return
 		}
 		src := mon.NewSource(r.B)
-		src.FailAt, src.Forever = j.k, j.forever
+		src.FailAt, src.Forever, src.WithData = j.k, j.forever, j.withData
 		var rd io.Reader = src
 		if r.ByteSrc {
 			rd = mon.ByteSource{Source: src}
